@@ -7,6 +7,7 @@ import (
 	"net/netip"
 	"sort"
 	"strings"
+	"sync/atomic"
 	"sync"
 	"time"
 
@@ -535,6 +536,67 @@ func forwardLoopChurn(res *core.Result, pool *idPool, r *rand.Rand, leaves int, 
 	res.Case("forward-loop-churn/"+desc, change != "")
 }
 
+// overlappedHandling: a router runs one frame handler per CPU, so two announcements that reach a router at about the
+// same time are handled at the same time. Here a second announcement waiting for router n is handled at the moment a
+// worker of n hands a forwarded copy of the first one to a link (inside the link's Send - an existing suspension
+// point; the second handling runs on another goroutine and the first one waits for it, bounded). Which announcements
+// overlap is seeded. When the network has drained the usual reach oracle applies: the delivery order and the overlap
+// of handlings are part of "all schedules".
+func overlappedHandling(res *core.Result, pool *idPool, r *rand.Rand, t *vmesh.Topology) {
+	ms, err := vmesh.Build(r, t, pool.get(t.N), vmesh.BuildOpts{Labels: vmesh.LabelMode(r.IntN(3))})
+	if err != nil {
+		res.Inconcl("mesh build: %v", err)
+		return
+	}
+	desc := t.Canon() + " overlapped-handlings"
+	var inside atomic.Bool
+	overlaps := 0
+	ms.OnLinkSend = func(l *vmesh.VLink, data []byte) {
+		if decodeAnnouncement(data) == nil || r.IntN(2) == 0 || !inside.CompareAndSwap(false, true) {
+			return
+		}
+		defer inside.Store(false)
+		n := l.FromIdx()
+		var p *vmesh.Packet
+		for i, q := range ms.InFlight {
+			if q.To == n && vmesh.Key(q.Data) != vmesh.Key(data) && decodeAnnouncement(q.Data) != nil {
+				p = ms.Take(i)
+				break
+			}
+		}
+		if p == nil {
+			return
+		}
+		overlaps++
+		done := core.OnHelper(func() { ms.Deliver(p) })
+		select {
+		case <-done:
+		case <-time.After(10 * time.Millisecond):
+			<-done // a tree that serialises its handlers: the second one ran after the first
+		}
+	}
+	if err := ms.AnnounceAll(); err != nil {
+		res.Inconcl("announce: %v", err)
+		return
+	}
+	if _, drained := ms.Drain(vmesh.FIFO, 400000); !drained {
+		res.Violate("flooding-does-not-terminate:overlapped", desc+": the network did not drain", map[string]any{"case_id": "overlapped"})
+		return
+	}
+	ms.OnLinkSend = nil
+	if len(ms.Panics) > 0 {
+		res.Violate("handler-panic", fmt.Sprintf("%s: %v", desc, ms.Panics[0]), nil)
+		return
+	}
+	if sig, msg, _ := checkReach(ms, t); sig != "" {
+		res.Violate(sig+":overlapped-handlings", fmt.Sprintf("%s (%d announcements were handled by a router while it was forwarding another one): %s", desc, overlaps, msg), map[string]any{"case_id": "overlapped", "topology": t.Canon()})
+		return
+	}
+	res.Count("overlapped_handling_runs", 1)
+	res.Count("announcements_handled_while_another_was_being_forwarded", int64(overlaps))
+	res.Case("overlapped/"+desc+fmt.Sprintf("/%d", overlaps), overlaps > 0)
+}
+
 func orNone(s string) string {
 	if s == "" {
 		return "no link changed during this handling"
@@ -712,6 +774,26 @@ func run(c *core.Ctx) {
 		}
 	})
 	res.Require(res.Counter("forward_loops_with_link_change") >= 8 || res.ViolationCount() > 0, "too few forwarding loops with a link change in the middle")
+	// two announcements handled by one router at the same time
+	parallel(4, func(w int) {
+		r := core.RNG(fmt.Sprintf("c09/overlap/%d", w))
+		pool := &idPool{r: core.RNG(fmt.Sprintf("c09/ovids/%d", w))}
+		for i := 0; i < c.Q(6, 80); i++ {
+			var t *vmesh.Topology
+			switch (w + i) % 4 {
+			case 0:
+				t = vmesh.Star(4 + r.IntN(5))
+			case 1:
+				t = vmesh.Tree(5 + r.IntN(8))
+			case 2:
+				t = vmesh.Ring(4 + r.IntN(5))
+			default:
+				t = vmesh.RandomSparse(r, 5+r.IntN(7))
+			}
+			overlappedHandling(res, pool, r, t)
+		}
+	})
+	res.Require(res.Counter("announcements_handled_while_another_was_being_forwarded") >= 50 || res.ViolationCount() > 0, "fewer than 50 overlapping handlings of announcements at one router")
 	// the largest announcements a frame can carry
 	parallel(4, func(w int) {
 		lo := 9700 + w*45
